@@ -10,6 +10,9 @@ META = {
                  "(seeded random ids, counters, times, payload bytes) and run through the real "
                  "parse_dlt_with_storage_header -> DltMessage::to_write -> parse -> to_write, and additionally through the public "
                  "DltStandardHeader::to_write with the ECU id and / or a session id IN the standard header (re-read, re-exported); "
+                 "every write path also writes into destinations with other legal std::io::Write behaviours (at most 1 / 7 / 512 / "
+                 "4096 bytes per call, ErrorKind::Interrupted now and then, an error after n accepted bytes, a small BufWriter) "
+                 "and what arrived is compared with the bytes of the same call into a Vec (Layout!DestOk); "
                  "whole generated files go "
                  "through the real `adlt convert -o` binary twice; every recorded execution is validated by TLC against "
                  "the contract LayoutTrace.tla, which recomputes the expectation from the logged ORIGINAL fields",
@@ -18,7 +21,8 @@ META = {
                   "{0,1,2,max-1,max} (max = 65535 - headers of that shape) x micros {0,999999}; every such record plus "
                   "seeded random messages (payload 0..max) executed on the real code, the contract evaluated by TLC on "
                   "each (plus the three ECU id / session id variants of the standard-header writer wherever the longer header "
-                  "fits the len field); files of 120+ messages of all shapes exported and re-exported by the adlt binary.",
+                  "fits the len field, and each of these up to five write paths into three unfriendly destinations with "
+                  "rotating parameters); files of 120+ messages of all shapes exported and re-exported by the adlt binary.",
     "level_note": "Trusted: TLC, the driver's byte builder and field projection, 2x31-bit payload hashes. Narrowed: a "
                   "message with version bits != 1 may be refused by the parser (nothing claimed then); which flags/len "
                   "to_write chooses is not judged (deviation from Layout's normal form is reported as design drift "
@@ -68,6 +72,21 @@ def binding_selftest(ctx, cases):
     a = json.loads(json.dumps(cases[wx[1]]))
     a[1]["wx"][2]["p"]["consumed"] -= 4                             # session id variant: not exactly the bytes written
     put(wx[1], a); expect.add(wx[1])
+    def has_ww(evs, pred):
+        return evs[0]["hdr"]["kind"] == "rt" and len(evs) == 2 and evs[1]["ev"] == "rt" and any(pred(d) for d in evs[1].get("ww", []))
+    used = set(rt) | set(wx)
+    short = [k for k, evs in cases.items() if k not in used and has_ww(evs, lambda d: d["writer"] == "chunk" and d["ref_len"] > d["k"])][:1]
+    failing = [k for k, evs in cases.items() if k not in used and k not in short and has_ww(evs, lambda d: d["writer"] == "fail" and d["limit"] < d["ref_len"])][:1]
+    if not short or not failing:
+        raise c.ToolError("binding self-test: no accepted rt case with a chunked / a failing destination")
+    a = json.loads(json.dumps(cases[short[0]]))
+    d = next(d for d in a[1]["ww"] if d["writer"] == "chunk" and d["ref_len"] > d["k"])
+    d["arrived"] = d["ref_len"] - 1; d["equal"] = False              # Ok returned but the tail did not arrive
+    put(short[0], a); expect.add(short[0])
+    a = json.loads(json.dumps(cases[failing[0]]))
+    d = next(d for d in a[1]["ww"] if d["writer"] == "fail" and d["limit"] < d["ref_len"])
+    d["ok"] = True                                                   # Ok although the destination failed before the end
+    put(failing[0], a); expect.add(failing[0])
     if fl:
         a = json.loads(json.dumps(cases[fl[0]]))
         del a[len(a) // 2]                                          # one exported message missing
@@ -161,6 +180,7 @@ def check(ctx):
                 "(htyp byte, payload length, micros, source)")
     seen, nfmsg, refused = set(), 0, 0
     nwx = {"ecu_id": 0, "session_id": 0, "both": 0, "does_not_fit": 0}
+    nww = {}
     for k, evs in cases.items():
         for e in evs[1:]:
             if e["ev"] == "rt":
@@ -169,6 +189,14 @@ def check(ctx):
                     for x in e["wx"]:
                         nwx["both" if x["weid"] and x["wsid"] else "ecu_id" if x["weid"] else "session_id"] += 1
                     nwx["does_not_fit"] += 3 - len(e["wx"])
+                    for d in e["ww"]:
+                        kind = d["writer"] + ("_k%d" % d["k"] if d["writer"] == "chunk" else "")
+                        if d["writer"] == "fail":
+                            kind += "_before_end" if d["limit"] < d["ref_len"] else "_not_reached"
+                        elif d["ref_len"] > d["k"]:
+                            kind += "_short_writes"
+                        key = "%s%s%s:%s" % (d["path"], "+ecu" if d["weid"] else "", "+sid" if d["wsid"] else "", kind)
+                        nww[key] = nww.get(key, 0) + 1
                 else:
                     refused += 1
             elif e["ev"] == "fmsg":
@@ -183,9 +211,15 @@ def check(ctx):
     ctx.extra["trace_events"] = info["lines"]
     ctx.extra["paths_hit"] = {"htyp_shapes_of_32": info["shapes"], "payload_0": info["payload_zero"],
                               "len_field_65535": info["len_max"], "parser_refused_version": refused,
-                              "std_header_writer_variants": nwx}
+                              "std_header_writer_variants": nwx, "destination_writers": nww}
     ctx.extra["design_conformance"] = {"steps": ncases - nfiles, "mismatches": len(drift),
                                        "what": "htyp / len / size of the first write against Layout!Write (normal form)"}
+    need_ww = ["%s:%s" % (pth, w) for pth in ("msg", "std", "std+ecu", "std+sid", "std+ecu+sid")
+               for w in ("chunk_k1_short_writes", "chunk_k7_short_writes", "chunk_k512_short_writes", "chunk_k4096_short_writes",
+                         "intr_short_writes", "buf_short_writes", "fail_before_end", "fail_not_reached")]
+    missing_ww = [k for k in need_ww if not nww.get(k)]
+    if missing_ww and not v.violations:
+        raise c.ToolError("vacuity: destination writers never exercised: %s" % missing_ww)
     if info["shapes"] < 32 or info["payload_zero"] == 0 or info["len_max"] == 0 or nfmsg == 0 or not all(nwx.values()):
         raise c.ToolError("vacuity: a required path was not exercised: %s" % ctx.extra["paths_hit"])
     for k in list(cases)[:2] + list(cases)[-1:]:
